@@ -75,6 +75,12 @@ FileStart ==
   /\ pc' = "wstart"
   /\ UNCHANGED <<dirv, journal, revs, f, i, left, budget, runs, edits, fresh, lost, wfault, runErr, snapJ, snapR, ran>>
 
+\* ReadRevision itself fails (third fault class): Execute returns before anything is written or executed.
+ReadFail ==
+  /\ pc = "file" /\ budget > 0
+  /\ budget' = budget - 1 /\ runErr' = "read" /\ pc' = "idle"
+  /\ UNCHANGED <<dirv, journal, revs, f, i, r, stmts, left, runs, edits, fresh, lost, wfault, snapJ, snapR, ran>>
+
 \* "Save once to mark as started".
 WStart ==
   /\ pc = "wstart"
@@ -157,7 +163,7 @@ Edit == /\ pc = "idle" /\ edits < MaxEdits
              \/ \E j \in 1..(Len(dirv[ff]) + 1) : EditChange(ff, j) \/ EditInsert(ff, j) \/ EditDelete(ff, j) \/ EditSwap(ff, j)
              \/ \E m \in 0..Len(dirv[ff]) : EditTruncate(ff, m)
 
-Step == FileStart \/ WStart \/ CheckPartial \/ Exec \/ WProg \/ Finish \/ Defer
+Step == FileStart \/ ReadFail \/ WStart \/ CheckPartial \/ Exec \/ WProg \/ Finish \/ Defer
 Next == (\E n \in NChoices : RunStart(n)) \/ Step \/ Edit
 Spec == Init /\ [][Next]_vars
 
